@@ -1,13 +1,13 @@
 #!/bin/bash
 # dev: replay a file with the dev worker and print the full trace (optionally filtered by task id)
 f=$(realpath $1); task=$2
-cat > /var/tmp/dev/rjob.json <<EOJ
-{"property":"$(python3 -c "import json;print(json.load(open('$f'))['property'])")","mode":"replay","replay_file":"$f","out":"/var/tmp/dev/rout.json","trace_lines":1000000}
+cat > ${DEVDIR:-/var/tmp/dev}/rjob.json <<EOJ
+{"property":"$(python3 -c "import json;print(json.load(open('$f'))['property'])")","mode":"replay","replay_file":"$f","out":"${DEVDIR:-/var/tmp/dev}/rout.json","trace_lines":1000000}
 EOJ
-VERIF_JOB=/var/tmp/dev/rjob.json GOMAXPROCS=1 /var/tmp/dev/worker-${PROFILE:-client}.test -test.run TestWorker -test.timeout 0 >/dev/null 2>&1
+VERIF_JOB=${DEVDIR:-/var/tmp/dev}/rjob.json GOMAXPROCS=1 ${DEVDIR:-/var/tmp/dev}/worker-${PROFILE:-client}.test -test.run TestWorker -test.timeout 0 >/dev/null 2>&1
 python3 - <<EOP
 import json
-o=json.load(open('/var/tmp/dev/rout.json'))
+import os; o=json.load(open(os.environ.get('DEVDIR','/var/tmp/dev')+'/rout.json'))
 print(o['counters'], o['violation_counts'])
 for l in o['samples'][0]['trace']:
     if not "$task" or (" $task " in l) or 'VIOLATION' in l or 'FAULT' in l or len(l.split())<4 or not l.split()[2].startswith('r.'):
